@@ -68,6 +68,9 @@ pub trait ShapeDyn: Send + Sync {
     fn new_in_place(&self, bytes: &mut [u8], v: &Value, kind: Kind) -> Result<Observation, Error>;
     fn wrap_new_in_place(&self, bytes: &mut [u8], v: &Value, kind: Kind) -> Result<Observation, Error>;
     fn default_in_place(&self, bytes: &mut [u8]) -> Option<Result<Observation, Error>>;
+    /// `FlatWrap::<T, AlignedBytes>::default_in_place(AlignedBytes::new(len, align))`; returns the
+    /// observation through Deref and the bytes handed back by `into_inner`
+    fn wrap_default_in_place(&self, len: usize, align: usize, fill: u8) -> Option<Result<(Observation, Vec<u8>), Error>>;
 
     /// map `bytes` with the checked API, apply the operations in order, observe the result.
     /// `Err` = the image was refused by `from_mut_bytes`.
@@ -138,6 +141,13 @@ impl<T: Node + ?Sized + 'static> ShapeDyn for ShapeOf<T> {
     }
     fn default_in_place(&self, bytes: &mut [u8]) -> Option<Result<Observation, Error>> {
         T::try_default(bytes).map(|r| r.map(|x| observe(&*x)))
+    }
+    fn wrap_default_in_place(&self, len: usize, align: usize, fill: u8) -> Option<Result<(Observation, Vec<u8>), Error>> {
+        let mut b = flatty::AlignedBytes::new(len, align);
+        for x in b.iter_mut() {
+            *x = fill;
+        }
+        T::try_wrap_default(b)
     }
     fn apply(&self, bytes: &mut [u8], ops: &[PathOp]) -> Result<(Vec<OpOut>, Observation), Error> {
         let x = T::from_mut_bytes(bytes)?;
